@@ -30,14 +30,14 @@ ASSUMPTIONS = [
 BUDGET = {"quick": {"shards": 4, "seconds": 40}, "thorough": {"shards": 16, "seconds": 420}}
 
 
-def _run(P: Dict[str, Any], case: Dict[str, Any], flag: bool) -> Dict[str, Any]:
+def _run(P: Dict[str, Any], case: Dict[str, Any], flag: bool, built: Any = None) -> Dict[str, Any]:
     import tawazi
 
     old = tawazi.cfg.RUN_DEBUG_NODES
     tawazi.cfg.RUN_DEBUG_NODES = flag
     out: Dict[str, Any] = {}
     try:
-        b = prog.build(P, is_async=bool(case.get("async")), mc=case.get("mc", 2))
+        b = built if built is not None else prog.build(P, is_async=bool(case.get("async")), mc=case.get("mc", 2))
         ids = b.node_ids()
         mode = case["mode"]
         ex = sched.Exec("free")
@@ -102,9 +102,26 @@ def run_case(case: Dict[str, Any]) -> CaseResult:
     outs = {}
     res.evals = 2
     pulled_any = False
-    for flag in (False, True):
-        o = _run(P, case, flag)
-        tag = f" [RUN_DEBUG_NODES={flag} mode={case['mode']} sel={case.get('sel')} async={case.get('async')}]"
+    # same_instance: both settings of the flag are exercised on ONE DAG object, one after the other (the flag is
+    # process configuration that may change between two executions); otherwise a fresh DAG per setting
+    same = bool(case.get("same_instance")) and not any(f.get("setup") for f in P["fns"].values())
+    built = None
+    if same:
+        import tawazi
+
+        old_flag = tawazi.cfg.RUN_DEBUG_NODES
+        tawazi.cfg.RUN_DEBUG_NODES = bool(case.get("build_flag"))
+        try:
+            built = prog.build(P, is_async=bool(case.get("async")), mc=case.get("mc", 2))
+        except BaseException as e:  # noqa: BLE001
+            res.viol("error", f"building raised {type(e).__name__}: {str(e)[:300]}")
+            return res
+        finally:
+            tawazi.cfg.RUN_DEBUG_NODES = old_flag
+        res.cls("same-instance-flag-toggled")
+    for flag in ((True, False) if (same and case.get("on_first")) else (False, True)):
+        o = _run(P, case, flag, built)
+        tag = f" [RUN_DEBUG_NODES={flag} mode={case['mode']} sel={case.get('sel')} async={case.get('async')}" + (f" same DAG object, flag {'on' if case.get('on_first') else 'off'} first" if same else "") + "]"
         if "exc" in o:
             res.viol("error", f"raised {type(o['exc']).__name__}: {str(o['exc'])[:300]}" + tag)
             return res
@@ -170,6 +187,8 @@ def cases(draw: Any, tier: str) -> Dict[str, Any]:
     P = draw(gen.flat_prog(min_sites=3, max_sites=8, max_deps=3, resources=gen.RES, dep_kinds=("pos", "kw"),
                            n_setup=draw(st.integers(0, 1)), n_debug=draw(st.integers(1, 3)), mark_roots=(mode != "executor")))
     case: Dict[str, Any] = {"prog": P, "mc": draw(st.integers(1, 3)), "async": draw(st.booleans()), "mode": mode}
+    if draw(st.booleans()):
+        case.update(same_instance=True, on_first=draw(st.booleans()), build_flag=draw(st.booleans()))
     for s in P["body"]:
         # a debug node with a constant argument (the site marker) is never pulled in by the debug rule:
         # most debug sites are therefore called without the marker (their function is used once)
